@@ -37,6 +37,7 @@ inductive QOp where
   | len
   | iter
   | riter
+  | ends                            -- `next()` / `next_back()` alternately until exhausted
   | iterMutAppend (x : Str)
   | rIterMutAppend (x : Str)        -- from the back: append x and the position from the back
   | index (k : Str)
@@ -67,6 +68,13 @@ inductive QOut where
   deriving Repr, DecidableEq
 
 def natToStr (n : Nat) : Str := (toString n).toList
+
+/-- the order in which a double-ended iterator yields when `next()` and `next_back()` alternate:
+first, last, second, last but one, … (`n` bounds the number of steps) -/
+def endsAux : Nat → Quals → Quals
+  | 0, _ => []
+  | _ + 1, [] => []
+  | n + 1, x :: xs => x :: endsAux n xs.reverse
 
 /-- `rimut`: walk from the back, append `x` and the position counted from the back. -/
 def rIterAppend (x : Str) (q : Quals) : Quals :=
@@ -156,6 +164,7 @@ def Quals.step (U : UnicodeOps) (q : Quals) : QOp → Res PErr (QOut × Quals)
   | .len => .ok (.nat q.length q.isEmpty, q)
   | .iter => .ok (.pairs q, q)
   | .riter => .ok (.pairs q.reverse, q)
+  | .ends => .ok (.pairs (endsAux q.length q), q)
   | .iterMutAppend x => .ok (.count q.length, q.map fun kv => (kv.1, kv.2 ++ x))
   | .rIterMutAppend x => .ok (.unit, rIterAppend x q)
   | .index k =>
